@@ -10,3 +10,7 @@ const Enabled = false
 
 // Point marks a named instrumentation point reached by the given member.
 func Point(member, name string) {}
+
+// Fail reports whether a failure is to be injected at the named point. It is
+// constant false without the verif tag.
+func Fail(member, name string) bool { return false }
